@@ -3846,11 +3846,17 @@ func (s *BgpServer) deleteNeighbor(c *oc.Neighbor, code, subcode uint8, sendNoti
 	}
 	n.fsm.logger.Info("Delete a peer configuration")
 
+	// The FSM is stopped below and reports no state change of its own: tell
+	// the watchers which state the peer leaves and why, so that an
+	// established session is reported as lost (BMP Peer Down, reason 5).
+	oldState := bgp.FSMState(n.fsm.pConf.ReadOnly().State.SessionState.ToInt())
+	var notification *bgp.BGPMessage
 	if sendNotification {
-		n.fsm.deconfiguredNotification <- bgp.NewBGPNotificationMessage(code, subcode, nil)
+		notification = bgp.NewBGPNotificationMessage(code, subcode, nil)
+		n.fsm.deconfiguredNotification <- notification
 	}
 	s.dropAdjRIBIn(n, n.configuredRFlist())
-	s.stopNeighbor(n, -1, nil)
+	s.stopNeighbor(n, oldState, &fsmMsg{StateReason: newfsmStateReason(fsmDeConfigured, notification, nil)})
 	return nil
 }
 
